@@ -162,7 +162,8 @@ def run(ctx):
     for _ in range(n):
         fmt = rnd.choice(["delimited", "delimited", "fixed"])
         nf = rnd.randint(1, 4)
-        allowed = rnd.choice([None, None, "33...126"]) if fmt == "delimited" else None
+        # in fixed-width data the range without the blank also refuses every padded cell (the hook must not see them)
+        allowed = rnd.choice([None, None, "33...126"])
         fields = []
         for j in range(nf):
             length = rnd.choice(["", "", "2...4", "...3"])
@@ -170,6 +171,7 @@ def run(ctx):
             f = {"name": "f%d" % j, "type": "Scripted", "empty": rnd.random() < 0.4, "length": length, "rule": "", "good": good, "bad": bad}
             if fmt == "fixed":
                 f["length"], f["width"], f["bad"] = "4", 4, ["n!"]
+                f["good"] = good + ["okay", "abcd"]
             if allowed:
                 f["bad"] = f["bad"] + ["a b"]
             (f["good"] if f["empty"] else f["bad"]).append("")
@@ -186,7 +188,7 @@ def run(ctx):
                              "rows": table, "close": rnd.random() < 0.85, "stop": rnd.choice([None, None, None, 1, 2])})
             else:
                 runs.append({"kind": "W", "rows": table, "close": rnd.random() < 0.85})
-        scns.append({"format": fmt, "line": rnd.choice(["lf", "cr", "crlf", "any", "none"]), "allowed": allowed, "fields": fields, "checks": checks, "header": header, "runs": runs})
+        scns.append({"format": fmt, "line": rnd.choice(["lf", "cr", "crlf", "any", "none"]), "allowed": allowed, "late_allowed": rnd.random() < 0.4, "fields": fields, "checks": checks, "header": header, "runs": runs})
     for scn, mruns, iruns in engine.run_scenarios(scns):
         sc = engine.strip_scn(scn)
         if isinstance(mruns, str) or isinstance(iruns, str):
